@@ -584,7 +584,7 @@ def r5d_param_count(ctx, F):
 EQ_GENERIC = r"(Value::<'v>::equals|FrozenValue::equals|ValueLike::equals|FrozenValueTyped::<'v, T>::equals|::equals)$"
 
 
-def r6_specialised_equality(ctx, F):
+def r6_specialised_equality(ctx, F, rule="C02.R6"):
     """`x == <constant>` is compiled to an instruction specialised on the constant's type. The specialisation may
     answer by itself only inside the constant's own Rust type; when the operand is of another type it must ask the
     generic equality, because an equality class can span several Rust types (an int constant equals a float and a big
@@ -593,7 +593,7 @@ def r6_specialised_equality(ctx, F):
     P = r"bc::instr_impl::%s as eval::bc::instr_impl::InstrNoFlowImpl>::run_with_args$"
     f = F.one(P % "InstrEqConstImpl")
     eqs = [c.bb for c in f.calls if c.bb not in f.cleanup and re.search(EQ_GENERIC, c.name)]
-    ctx.check(bool(eqs) and f.must_pass_from_entry(eqs, f.returns()), "C02.R6", "InstrEqConst:always-generic",
+    ctx.check(bool(eqs) and f.must_pass_from_entry(eqs, f.returns()), rule, "InstrEqConst:always-generic",
               "every path evaluates the generic equality",
               "InstrEqConst can produce a result without calling the generic `equals`", fn=f)
     f = F.one(P % "InstrEqIntImpl")
@@ -601,12 +601,12 @@ def r6_specialised_equality(ctx, F):
     eqs = [c.bb for c in f.calls if c.bb not in f.cleanup and re.search(EQ_GENERIC, c.name)
            and not re.search(r"cmp::PartialEq", c.name)]
     if not tests:
-        ctx.bad("C02.R6", "InstrEqInt:anchor", "anchor-missing: the small-int test of InstrEqInt", fn=f)
+        ctx.bad(rule, "InstrEqInt:anchor", "anchor-missing: the small-int test of InstrEqInt", fn=f)
         return
     for t in tests:
         edges = outcome_edges(F, f, t, "None")
         starts = [b for (_, b) in edges]
-        ctx.check(bool(starts) and bool(eqs) and all_paths_pass(f, starts, eqs), "C02.R6", "InstrEqInt:fallback-generic",
+        ctx.check(bool(starts) and bool(eqs) and all_paths_pass(f, starts, eqs), rule, "InstrEqInt:fallback-generic",
                   "when the operand is not a small int the generic equality decides",
                   "InstrEqInt answers without the generic `equals` when the operand is not a small int: "
                   "`x == 1` with x = 1.0 (or a big int) gives a different answer when the constant is visible to the "
